@@ -1,6 +1,6 @@
 (* Run from build/ocaml (extraction writes into the current directory). ExtrOcamlBasic only. *)
 From Coq Require Import Extraction ExtrOcamlBasic.
-From RML Require Import Model.Base Model.Time Model.Utf8 Model.Amf0 Model.Chunk Model.ChunkSer Model.ChunkDe Model.Messages Model.Float Model.SessionCommon Model.Server Model.Client Model.Sha256 Model.Handshake
+From RML Require Import Model.Base Model.Time Model.Utf8 Model.Amf0 Model.Chunk Model.ChunkSer Model.ChunkDe Model.Messages Model.Float Model.SessionCommon Model.Server Model.Client Model.Sha256 Model.Handshake Model.Interop
   Spec.Amf0Spec Spec.ChunkSpec Spec.MessageSpec.
 Extraction Blacklist String List Int.
-Separate Extraction Model.Time Model.Amf0 Model.ChunkSer Model.ChunkDe Model.Messages Model.Server Model.Client Model.Sha256 Model.Handshake Spec.Amf0Spec Spec.ChunkSpec Spec.MessageSpec.
+Separate Extraction Model.Time Model.Amf0 Model.ChunkSer Model.ChunkDe Model.Messages Model.Server Model.Client Model.Sha256 Model.Handshake Model.Interop Spec.Amf0Spec Spec.ChunkSpec Spec.MessageSpec.
